@@ -12,6 +12,7 @@ hand-written meaning of what `harness/translate/tlbparsers_blk.py` emits besides
   * `Rd.refSlice`                 `lambda src: src.load_ref().begin_parse()`: a Slice value `.con "slice" (.cell c)` over the next reference
   * `Rd.loadDictRaw n`            `Slice.load_dict(n)` without a value_deserializer (`libraries`, `prev_blk_signatures`): the values are raw
                                   Slices — recorded as `.con "slice" .unit` (presence only: the library does not parse them)
+  * `Rd.presence`                 a constructor argument kept as an unparsed cell where the schema has a structured value: `None` / "a cell"
   * `Rd.tuple`                    a Python tuple → `.con "tuple" (.record [("0", a), ("1", b)])`
   * `Rd.augWalk x y`              `parse_aug` of boc/hashmap/parse.py: label (HmLabel reader), then a leaf reads `extra:Y` THEN `value:X`
                                   from the same cell (`extras.append(y(cs)); ret[prefix] = x(cs)`), a fork walks its two references and
@@ -79,6 +80,12 @@ def rawLeaf (s : Frag) : R := some (.con "slice" .unit, s)
 
 /-- `Slice.load_dict(n)` (no value_deserializer): keys ↦ Slices -/
 def loadDictRaw (n : Nat) (s : Frag) : R := loadDict n rawLeaf s
+
+/-- a constructor argument that the parser keeps as an unparsed cell where the schema has a structured value (`McBlockExtra.shard_fees`:
+    the root cell of the ShardFees dictionary).  Declared abstraction: only `None` / "a cell" is recorded -/
+def presence : Val → Val
+  | .unit => .unit
+  | _ => .con "cell" .unit
 
 /-! ### augmented dictionaries -/
 
